@@ -1,7 +1,7 @@
 CONSTANTS
   Dev = {}
-  RD = 2
-  MaxRetries = 1
+  TickMs = 10000
+  Confs <- GConfs
   MaxDgrams = 3
   MaxOps = 12
   PathMode = FALSE
